@@ -204,6 +204,16 @@ Theorem C05_to_expr_roundtrip s u :
          r = Ok u ∧ Inv s' ∧ extends s s' ∧ last_len s' = None.
 Proof. exact (to_expr_roundtrip s u). Qed.
 
+(** ... and on the text itself, split into lexemes by the hand-written
+    splitter [split_formula] (blanks separate; parentheses and commas stand
+    alone): [add_expr_ (split (to_expr u))] returns [u]. *)
+Theorem C05_to_expr_roundtrip_text s u :
+  Inv s → valid s u → last_len s = None →
+  ∃ txt, to_expr u s = (Ok txt, s) ∧
+    ∀ r s', add_expr_ (split_formula txt) s = (r, s') →
+      r = Ok u ∧ Inv s' ∧ extends s s' ∧ last_len s' = None.
+Proof. exact (to_expr_roundtrip_text s u). Qed.
+
 (** ** Non-vacuity: a manager with three variables; one formula in two
     different spellings gives the same reference; its tree satisfies
     [ok_ast]; [to_expr] of the result, split into lexemes and added again,
@@ -219,11 +229,14 @@ Example C05_nonvacuous :
   last_len s0 = None ∧
   parse_show e1 = Ok (VS
     "(=> (| (& v0 (! v1)) (& (\E [v2] (# v2 v1)) (! v0))) (ite v2 F v1))") ∧
-  (∃ a, (lex e1 ≫= parse code_prec) = Some a ∧ ok_astb s0 a = true) ∧
+  match lex e1 ≫= parse code_prec with
+  | Some a => ok_astb s0 a = true
+  | None => False
+  end ∧
   snd (step_expr w0 0 e1) = Ok (VZ 9) ∧
   snd (step_expr w1 0 e2) = Ok (VZ 9) ∧
   match snd (step_to_expr w1 0 9) with
   | Ok (VS txt) => snd (step_expr w1 0 (split_formula txt)) = Ok (VZ 9)
   | _ => False
   end.
-Proof. vm_compute. split_and!; try done. by eexists. Qed.
+Proof. by vm_compute. Qed.
